@@ -30,12 +30,12 @@ void thread_request_serializer::update(int delta) {
     constexpr std::uint64_t delta_mask = (pending_delta_base << 1) - 1;
     constexpr std::uint64_t counter_value = delta_mask + 1;
 
-    int prev_pending_delta = my_pending_delta.fetch_add(counter_value + delta);
+    std::uint64_t prev_pending_delta = my_pending_delta.fetch_add(counter_value + delta);
 
     // There is a pseudo request aggregator, so only thread that see pending_delta_base in my_pending_delta
     // Will enter to critical section and call adjust_job_count_estimate
     if (prev_pending_delta == pending_delta_base) {
-        delta = int(my_pending_delta.exchange(pending_delta_base) & delta_mask) - int(pending_delta_base);
+        delta = int(std::int64_t(my_pending_delta.exchange(pending_delta_base) & delta_mask) - std::int64_t(pending_delta_base));
         mutex_type::scoped_lock lock(my_mutex);
         my_total_request.store(my_total_request.load(std::memory_order_relaxed) + delta, std::memory_order_relaxed);
         delta = limit_delta(delta, my_soft_limit, my_total_request.load(std::memory_order_relaxed));
